@@ -1191,6 +1191,7 @@ where
     #[inline]
     async fn read_map_begin(&mut self) -> Result<TMapIdentifier, ThriftException> {
         let element_count = self.read_varint_async::<u32>().await? as i32;
+        let element_count = super::check_wire_count(element_count as i64, None)?;
         if element_count == 0 {
             Ok(TMapIdentifier::new(TType::Stop, TType::Stop, 0))
         } else {
@@ -1201,7 +1202,7 @@ where
             Ok(TMapIdentifier::new(
                 key_type,
                 val_type,
-                element_count as usize,
+                element_count,
             ))
         }
     }
@@ -1236,7 +1237,8 @@ where
         } else {
             self.read_varint_async::<u32>().await? as i32
         };
-        Ok((element_type, element_count as usize))
+        let element_count = super::check_wire_count(element_count as i64, None)?;
+        Ok((element_type, element_count))
     }
 
     #[inline]
@@ -1308,7 +1310,9 @@ impl TCompactInputProtocol<&mut Bytes> {
         } else {
             self.read_varint::<u32>()? as i32
         };
-        Ok((element_type, element_count as usize))
+        let element_count =
+            super::check_wire_count(element_count as i64, Some(self.trans.len()))?;
+        Ok((element_type, element_count))
     }
 }
 
@@ -1741,6 +1745,8 @@ impl TInputProtocol for TCompactInputProtocol<&mut Bytes> {
     // #[inline]
     fn read_map_begin(&mut self) -> Result<TMapIdentifier, ThriftException> {
         let element_count = self.read_varint::<u32>()? as i32;
+        let element_count =
+            super::check_wire_count(element_count as i64, Some(self.trans.len()))?;
         if element_count == 0 {
             Ok(TMapIdentifier::new(TType::Stop, TType::Stop, 0))
         } else {
@@ -1751,7 +1757,7 @@ impl TInputProtocol for TCompactInputProtocol<&mut Bytes> {
             Ok(TMapIdentifier::new(
                 key_type,
                 val_type,
-                element_count as usize,
+                element_count,
             ))
         }
     }
